@@ -33,6 +33,13 @@ def MATCH(lookup_value, lookup_array, match_type=1):
     if match_type not in (-1, 0, 1):
         return error.NOT_AVAILABLE
 
+    # a single row or a single column delivered as a 2-D list (a range) is searched as the vector it is
+    if lookup_array and all(isinstance(row, list) for row in lookup_array):
+        if len(lookup_array) == 1:
+            lookup_array = lookup_array[0]
+        elif all(len(row) == 1 for row in lookup_array):
+            lookup_array = [row[0] for row in lookup_array]
+
     index = None
     index_value = None
     for idx in range(len(lookup_array)):
@@ -92,6 +99,12 @@ def INDEX(arr, row_num=DEFAULT, column_num=DEFAULT, area_num=DEFAULT):
         column_num = utils.parse_number(column_num)
         if isinstance(column_num, error.XLError):
             return column_num
+
+    if bidimensional and column_num is DEFAULT and (len(arr) == 1 or all(len(r) == 1 for r in arr)):
+        # a single row or a single column delivered as a 2-D list (a range):
+        # one index addresses it by position
+        arr = arr[0] if len(arr) == 1 else [r[0] for r in arr]
+        bidimensional = False
 
     def outside(num, size):
         return num is not DEFAULT and not 0 <= num <= size
